@@ -1,7 +1,7 @@
 (* C02 -- Type soundness: accepted programs never hit dynamic type errors.
    Only pinned statements, `exact`, Examples / refutation witnesses by vm_compute, and Print Assumptions. *)
 From Coq Require Import String List NArith ZArith PArith Bool FMapPositive.
-From Sylt Require Import Syntax.Resolved Types.TyGraph Types.Tc Types.TcInv Types.SoundE0.
+From Sylt Require Import Syntax.Resolved Types.TyGraph Types.Tc Types.TcInv Types.SoundE0 Types.SoundE1.
 Import ListNotations.
 Local Open Scope string_scope.
 
@@ -20,12 +20,43 @@ Proof. exact SoundE0.C02_E0. Qed.
 
 (* its two halves *)
 Theorem C02_accepted_simply_typed : forall kinds g sp e,
-  in_fragment e = true -> sound_expr kinds g (to_expr sp e) (ty0 e).
-Proof. exact SoundE0.accepted_simply_typed. Qed.
+  in_fragment e = true -> sound_expr kinds g (fun _ => True) (to_expr sp e) (ty0 e).
+Proof. intros kinds g. exact (SoundE0.accepted_simply_typed kinds g (fun _ => True) (fun _ _ _ _ _ => I)). Qed.
 
 Theorem C02_simply_typed_sound : forall farith fneg fcmp of_int scmp e t,
   ty0 e = Some t -> exists v, eval farith fneg fcmp of_int scmp e = Some v /\ tag v = t.
 Proof. exact SoundE0.simply_typed_sound. Qed.
+
+(* C02_E1.  Beyond closed expressions: blocks `s1 .. sn e` whose statements are local definitions (`x := e`, `x :: e`,
+   with or without a base-type annotation), assignments `x = e` to and reads of variables defined in the block, and
+   expression statements, over the expressions of C02_E0.  If the checker accepts the block (as fn expression_block
+   checks a function / branch / loop body: every statement, then the last expression once more as the value), in any
+   well-formed state, any TypeCtx, with any fuel, then the tagged evaluator with a variable store does not get stuck
+   (no operation on a value of the wrong tag, no read of an undefined variable) and returns a value whose tag is the
+   base type at the head of the class the checker gave to the value of the block. *)
+Theorem C02_E1 : forall farith fneg fcmp of_int scmp kinds g f ctx sp ss (e : e1) s r ov s',
+  frag_stmts1 [] ss e = true -> wf s ->
+  expression_block (gfix g) (afix kinds (gfix g) f) sp (to_block1 sp ss e) ctx s = Ok ((r, ov), s') ->
+  exists v t c, run1 farith fneg fcmp of_int scmp [] ss e = Some v /\ tag v = t /\
+                ov = Some c /\ head s' c = Some (bty_head t).
+Proof. exact SoundE1.C02_E1. Qed.
+
+(* its two halves: accepted => typed with a type environment; typed => the evaluator is not stuck *)
+Theorem C02_accepted_block_typed : forall kinds g sp ss e f ctx s r ov s',
+  frag_stmts1 [] ss e = true -> wf s ->
+  expression_block (gfix g) (afix kinds (gfix g) f) sp (to_block1 sp ss e) ctx s = Ok ((r, ov), s') ->
+  exists t v, ty_block1 [] ss e = Some t /\ ov = Some v /\ head s' v = Some (bty_head t).
+Proof. exact SoundE1.accepted_block1. Qed.
+
+Theorem C02_typed_block_sound : forall farith fneg fcmp of_int scmp ss G r e t,
+  store_ok G r -> ty_block1 G ss e = Some t ->
+  exists v, run1 farith fneg fcmp of_int scmp r ss e = Some v /\ tag v = t.
+Proof. exact SoundE1.typed_run1. Qed.
+
+(* the invariant that links the two: the class of every variable in scope has the variable's base type, and every
+   extension of the state keeps it *)
+Theorem C02_env_invariant : forall E s s', wf s -> ext s s' -> env_ok E s -> env_ok E s'.
+Proof. exact SoundE1.env_ok_ext. Qed.
 
 (* The full statement - every accepted program without externals runs without a dynamic type error - is
    not proved, and it is FALSE of the model as it is of the code: the first program below is accepted by the
@@ -90,7 +121,37 @@ Example C02_example_rejected :
   | Err e _ => e_kind e | _ => KExotic end = KBinOp.
 Proof. vm_compute. reflexivity. Qed.
 
+(* ---- non-vacuity of C02_E1:  x := 1 ; y: int : x + 2 ; x = y * 2 ; x < y *)
+Definition blk1 : list s1 :=
+  [D1 1 Mutable None (I1 1); D1 2 Const (Some TI) (Bin1 Add (R1 1) (I1 2)); A1 1 (Bin1 Mul (R1 2) (I1 2))].
+Definition res1 : e1 := Bin1 Less (R1 1) (R1 2).
+Definition kinds1 : PositiveMap.t varkind :=
+  PositiveMap.add (N.succ_pos 1) Mutable (PositiveMap.add (N.succ_pos 2) Const (PositiveMap.empty varkind)).
+
+Example C02_example_block_in_fragment : frag_stmts1 [] blk1 res1 = true.
+Proof. reflexivity. Qed.
+
+Example C02_example_block_accepted :
+  match (init_vars 3 ;;; expression_block (gfix 30) (afix kinds1 (gfix 30) 30) sp0 (to_block1 sp0 blk1 res1) ctx_new)%tc empty_st with
+  | Ok _ => true | _ => false end = true.
+Proof. vm_compute. reflexivity. Qed.
+
+Example C02_example_block_runs :
+  run1 (fun _ a _ => a) (fun a => a) (fun _ _ _ => true) (fun _ => "") (fun _ _ _ => true) [] blk1 res1 = Some (VBool false).
+Proof. vm_compute. reflexivity. Qed.
+
+(* and an ill-typed block is rejected: x := 1 ; x = "a" ; x *)
+Example C02_example_block_rejected :
+  match (init_vars 3 ;;; expression_block (gfix 30) (afix kinds1 (gfix 30) 30) sp0
+                           (to_block1 sp0 [D1 1 Mutable None (I1 1); A1 1 (S1 "a")] (R1 1)) ctx_new)%tc empty_st with
+  | Err e _ => e_kind e | _ => KExotic end = KMismatch.
+Proof. vm_compute. reflexivity. Qed.
+
 Print Assumptions C02_E0.
+Print Assumptions C02_E1.
+Print Assumptions C02_accepted_block_typed.
+Print Assumptions C02_typed_block_sound.
+Print Assumptions C02_env_invariant.
 Print Assumptions C02_accepted_simply_typed.
 Print Assumptions C02_simply_typed_sound.
 Print Assumptions C02_refuted_reinstantiated_param.
